@@ -569,6 +569,7 @@ func Run(r *vk.Run) {
 					burst.More = [][]world.Item{blockItems(j), blockItems(j + 1), {{I: j + 2}}}
 					burst.StopAtExec = 2
 				}
+				burst.Gate = rep%3 != 2 // two in three: the consumer lags the scan completely (independent of machine speed)
 				sc.Actions = append(sc.Actions, burst)
 				for i := j + 3; i < len(p.Heights); i++ {
 					sc.Actions = append(sc.Actions, world.Action{Kind: "da", DA: blockItems(i)})
